@@ -91,7 +91,7 @@ package grpctunnel
 //@   loop 1 invariant[C01,C13] @offrange  0 <= off && off <= len(old(data)) && len(data) == len(old(data)) - off
 //@   loop 1 invariant[C01,C13] @first     first == (off == 0) && size == uint32(len(old(data)))
 //@   loop 1 invariant[C01,C13] @fits32    len(old(data)) <= 4294967295
-//@   loop 1 invariant[C01]     @nonempty  off == 0 || len(data) > 0
+//@   loop 1 invariant[C01,C13] @nonempty  off == 0 || len(data) > 0
 //@   at select#1
 //@     assert[C05] @waitonlyatzero windowSz == 0
 //@   at call CompareAndSwap#1
@@ -103,7 +103,7 @@ package grpctunnel
 //@   at call sendFunc#*
 //@     assert[C01,C13] @contiguous sameArray(arg0, old(data)) && offsetOf(arg0) == offsetOf(old(data)) + off
 //@     assert[C06,C13] @chunkmax   len(arg0) <= 16384
-//@     assert[C01]     @progress   len(arg0) > 0 || len(old(data)) == 0
+//@     assert[C01,C13] @progress   len(arg0) > 0 || len(old(data)) == 0
 //@     assert[C01,C13] @envelope   arg1 == uint32(len(old(data))) && arg2 == (off == 0)
 //@     assert[C06]     @reserved   casOK && casOld - casNew == uint32(len(arg0)) && uint32(len(arg0)) <= casOld
 //@     assert[C01,C13] @inbounds   off + len(arg0) <= len(old(data))
@@ -121,11 +121,11 @@ package grpctunnel
 //@   loop 1 invariant[C01,C13] @offrange  0 <= off && off <= len(old(data)) && len(data) == len(old(data)) - off
 //@   loop 1 invariant[C01,C13] @first     first == (off == 0) && size == uint32(len(old(data)))
 //@   loop 1 invariant[C01,C13] @fits32    len(old(data)) <= 4294967295
-//@   loop 1 invariant[C01]     @nonempty  off == 0 || len(data) > 0
+//@   loop 1 invariant[C01,C13] @nonempty  off == 0 || len(data) > 0
 //@   at call sendFunc#*
 //@     assert[C01,C13] @contiguous sameArray(arg0, old(data)) && offsetOf(arg0) == offsetOf(old(data)) + off
 //@     assert[C06,C13] @chunkmax   len(arg0) <= 16384
-//@     assert[C01]     @progress   len(arg0) > 0 || len(old(data)) == 0
+//@     assert[C01,C13] @progress   len(arg0) > 0 || len(old(data)) == 0
 //@     assert[C01,C13] @envelope   arg1 == uint32(len(old(data))) && arg2 == (off == 0)
 //@     assert[C01,C13] @inbounds   off + len(arg0) <= len(old(data))
 //@     ghost off += len(arg0)
@@ -384,10 +384,12 @@ package grpctunnel
 //@     assert[C06] @window arg2 == 65536
 //@   at call newSender#1
 //@     assert[C06] @peerwindow arg1 == frame.InitialWindowSize
-//@     assert[C04,C14] @senderctx arg0 == ctx
+//@     assert[C03,C04,C05,C07,C14] @senderctx arg0 == ctx
 //@     assert[C11] @rev1 frame.ProtocolRevision == 1
 //@   at call newSenderWithoutFlowControl#1
 //@     assert[C11] @rev0 frame.ProtocolRevision == 0
+//@   at call newReceiverWithoutFlowControl#1
+//@     assert[C04,C07,C14] @receiverctx arg0 == ctx
 //@   ghost reqmd metadata.MD = nil
 //@   ghost reqctx context.Context = nil
 //@   at call fromProto#1
@@ -431,7 +433,7 @@ package grpctunnel
 //@   at call halfClose#1
 //@     assert[C07] @cause arg1 == err
 //@   at call Lock#1
-//@     assert[C03,C04,C05,C06,C07] @cancelbeforelock cancelCalled(st.cancel)
+//@     assert[C03,C04,C05,C06,C07,C15] @cancelbeforelock cancelCalled(st.cancel)
 //@   at go#1
 //@     assert[C13] @notclosed !st.closed
 //@     assert[C02] @status    stat == statusOf(err)
@@ -1066,10 +1068,12 @@ package grpctunnel
 //@     assert[C06] @window arg2 == 65536
 //@   at call newSender#1
 //@     assert[C06]     @peerwindow arg1 == c.settings.InitialWindowSize
-//@     assert[C04,C14] @senderctx  arg0 == ctx
+//@     assert[C03,C04,C05,C07,C14] @senderctx  arg0 == ctx
 //@     assert[C11]     @flowctl    c.useRevision != 0
 //@   at call newSenderWithoutFlowControl#1
 //@     assert[C11] @rev0 c.useRevision == 0
+//@   at call newReceiverWithoutFlowControl#1
+//@     assert[C04,C07,C14] @receiverctx arg0 == ctx
 //@   at call WithCancel#1
 //@     assert[C04,C17] @parent arg0 == old(ctx)
 //@   at call WithValue#1
@@ -1537,7 +1541,7 @@ package grpctunnel
 //@   locks s.mu
 //@   assigns nothing
 //@   at call Wait#1
-//@     assert[C03,C10,C15] @unlocked !held(s.mu)
+//@     assert[C03,C04,C10,C15] @unlocked !held(s.mu)
 //@   ensures[C10] @forward  old(s.state) == 0 ==> s.state == 1
 //@   ensures[C10] @idempotent old(s.state) != 0 ==> s.state == old(s.state)
 //@   ensures[C10] @waits    count("wg.Wait") == 1
@@ -1552,7 +1556,7 @@ package grpctunnel
 //@     assert[C04,C10] @hangup held(s.mu) && s.state == 2
 //@   loop 1 invariant[C10]     @closing held(s.mu) && s.state == 2 && old(s.state) != 2 && s.instances == old(s.instances)
 //@   at call Wait#1
-//@     assert[C03,C10,C15] @unlocked !held(s.mu)
+//@     assert[C03,C04,C10,C15] @unlocked !held(s.mu)
 //@   ensures[C10] @closed  s.state == 2
 //@   ensures[C10] @waits   count("wg.Wait") == 1
 //@   ensures[C10] @again   old(s.state) == 2 ==> count("carrierSend") == 0
